@@ -46,6 +46,10 @@ CLAIMED = {
          "Exploration by runtime monitoring: each workspace (generated with unique names, the repository's testdata projects, and collision workspaces with duplicate globals of different arity/level, same-basename modules and duplicate annotation classes) is analysed by 6 (quick) or 30 (thorough) independent server processes under varied GOMAXPROCS and file creation order; the sorted diagnostics and the answers to a probe set (definition, hover, references, completion, documentSymbol, workspace/symbol) must be identical across runs. The evidence reports the maximum number of distinct observations per workspace kind.",
          "'For all schedules' is sampled by repetition, not enumerated: a dependence that needs a rarer interleaving than R runs produce goes unnoticed.",
          "DESIGN.md 3/C09"),
+ "C17": ("online monitor: published diagnostics under configuration c vs the filtered all-enabled view (reference filter R-conf), for three delivery modes",
+         "Exploration by runtime monitoring: a zoo workspace that triggers diagnostic types 1-10 and 12-21 (22, 26 in config-file mode) in files of four directories is analysed under each single flag off, each single flag on, random flag subsets, master off, error-ignore patterns (file, folder, regex, non-matching, invalid regex) and analysis-ignore patterns, each delivered as initialization options, as a later didChangeConfiguration and as luahelper.json; the published view must equal the all-enabled view of the same delivery mode filtered by the configuration (analysis-ignore: the all-enabled view of the workspace without those files). Invalid patterns must leave the server alive.",
+         "The oracle is differential against the all-enabled run of the same server. Types 11 and 23-25, 27-29 are not produced by the zoo; patterns that match by substring but not as a path component are not generated (the documentation is silent on them).",
+         "DESIGN.md 3/C17"),
 }
 
 PENDING_REASON = "check not built yet in this revision of /verif (work in progress; see DESIGN.md section 3 for the planned monitor)"
